@@ -570,8 +570,8 @@ def r_foreign_predicate(c):
                 "of the two operands by a predicate other than == / self.rec: values it "
                 "equates (e.g. shapes n+m and m+n) still hash differently, so equal "
                 "expressions get different hashes")
-    if n < 25:
-        raise AnalysisError(f"only {n} comparison handlers scanned (floor 25)")
+    if n < 17:
+        raise AnalysisError(f"only {n} comparison handlers scanned (floor 17)")
 
 
 def r_nan(c):
@@ -614,9 +614,9 @@ SPEC = Spec(
     prop="C04",
     rules=[r_exhaustive, r_eq_field, r_pairing, r_memo_and_identity, r_hash_order,
            r_pickle, r_state, r_foreign_predicate, r_nan],
-    floors={"R04-EXHAUSTIVE": 23, "R04-EQ-FIELD": 100, "R04-HASH-SUBSET": 80,
-            "R04-PAIRING": 80, "R04-PICKLE": 5, "R04-HASH-ORDER": 3, "R04-NEQ": 20,
-            "R04-MEMO-KEY": 2, "R04-HASH-IDENTITY": 1, "R04-STATE": 5, "R04-NAN": 1},
+    floors={"R04-EXHAUSTIVE": 20, "R04-EQ-FIELD": 74, "R04-HASH-SUBSET": 67,
+            "R04-PAIRING": 80, "R04-PICKLE": 5, "R04-HASH-ORDER": 2, "R04-NEQ": 16,
+            "R04-MEMO-KEY": 1, "R04-HASH-IDENTITY": 1, "R04-STATE": 3, "R04-NAN": 1},
     explanation=(
         "Static (kind, field) enumeration over /repo/pytato: for every concrete "
         "node kind K the EqualityComparer handler the dispatcher would select is "
